@@ -1,7 +1,11 @@
 //! Counting global allocator: current and peak heap bytes (for C17's "memory stays bounded").
 
 use std::alloc::{GlobalAlloc, Layout, System};
-use std::sync::atomic::{AtomicUsize, Ordering::Relaxed};
+use std::sync::atomic::{AtomicBool, AtomicUsize, Ordering::Relaxed};
+
+/// "Hostile allocator" mode (C11): every realloc moves the block and every freed block is overwritten
+/// with 0xDD first, so that a dangling borrow reads garbage natively, whatever the system allocator does.
+pub static HOSTILE: AtomicBool = AtomicBool::new(false);
 
 pub struct Counting;
 
@@ -19,9 +23,20 @@ unsafe impl GlobalAlloc for Counting {
     }
     unsafe fn dealloc(&self, p: *mut u8, l: Layout) {
         CUR.fetch_sub(l.size(), Relaxed);
+        if HOSTILE.load(Relaxed) {
+            std::ptr::write_bytes(p, 0xDD, l.size());
+        }
         System.dealloc(p, l)
     }
     unsafe fn realloc(&self, p: *mut u8, l: Layout, new: usize) -> *mut u8 {
+        if HOSTILE.load(Relaxed) {
+            let q = self.alloc(Layout::from_size_align_unchecked(new, l.align()));
+            if !q.is_null() {
+                std::ptr::copy_nonoverlapping(p, q, l.size().min(new));
+                self.dealloc(p, l);
+            }
+            return q;
+        }
         // Account for old + new being live at once (worst case of a moving realloc).
         let c = CUR.fetch_add(new, Relaxed) + new;
         PEAK.fetch_max(c, Relaxed);
